@@ -312,7 +312,16 @@ pub fn check_stats_truth(stats: &Value, w: &Walk, f: Filter, analysed: bool) -> 
         .and_then(|v| v.as_array())
         .map(|a| a.iter().filter_map(|x| x.as_str().map(|s| s.to_string())).collect())
         .unwrap_or_default();
-    if custom == 0 && es.get("fatal_error").map_or(true, |v| v.is_null()) {
+    // ... followed by the codes of the end-of-run expectation messages ([E9001], [E9002]) not yet in the list
+    for m in es.get("custom_checks_stats_errors").and_then(|v| v.as_array()).into_iter().flatten().filter_map(|x| x.as_str()) {
+        for c in oracle::parse_err_text(m).codes {
+            let c = c.trim_start_matches('E').to_string();
+            if !codes.contains(&c) {
+                codes.push(c);
+            }
+        }
+    }
+    if es.get("fatal_error").map_or(true, |v| v.is_null()) {
         // finalisation (which extracts the codes) does not run in view mode / stdout output mode
         let finalized = stats.get("is_finalized").and_then(|v| v.as_bool()).unwrap_or(false);
         if finalized && got_codes != codes {
@@ -565,10 +574,14 @@ pub fn run_filter_write(
         let mut spec = base.clone();
         spec.argv.extend(fargs.iter().cloned());
         if to_file {
-            spec.argv.extend(["-o".to_string(), "@OUT@".to_string()]);
+            let out_arg = if label.contains("file named stdout") { "@OUT:stdout@" } else { "@OUT@" };
+            spec.argv.extend(["-o".to_string(), out_arg.to_string()]);
             spec.argv.extend(["-S".to_string(), "@STATS@".to_string(), "-D".to_string(), "json".to_string()]);
         }
         let r = ex.exec(&spec);
+        if spec.custom_checks_toml.is_some() {
+            ex.fault("end_of_run_expectation_fails_while_filtering");
+        }
         if i == 0 {
             out.key = case_key(input, &r);
             out.nontrivial = w.pkts.len() >= 2 && r.outcome.threads >= 3;
@@ -621,7 +634,8 @@ pub fn run_filter_write(
             }
         }
         // an empty input is not recognisable as ALICE data: non-zero exit is the documented outcome
-        if r.status != 0 && !input.is_empty() {
+        // (with a custom expectation about the run that does not hold, the status is the exit contract's matter)
+        if r.status != 0 && !input.is_empty() && spec.custom_checks_toml.is_none() {
             out.fail = fail("filter-output", "exit-status", tag(format!("exit status {}", r.status)));
             return out;
         }
